@@ -387,6 +387,54 @@ def encoder_rules(run, r1, r2, f):
         run.violation(r2, "generator::encode_dispatch_data|dtbl-stop", "the last cell of a multi-method's dispatch table is not emitted with stop_bit", where(dl[0]) if dl else where(body))
 
 
+def decoder_class_loop(f):
+    """(per-record loop, is_fetch) of decode_dispatch_data"""
+    body = f["body"]
+    fetch = None
+    for n in astq.walk(body):
+        if n.get("k") == "DeclStmt":
+            for d in n["decls"]:
+                if d.get("init") is not None and any(x.get("k") == "LambdaExpr" for x in astq.walk(d["init"])) and any(
+                        x.get("k") == "DeclRefExpr" and x["ref"]["name"].endswith("stop_bit") for x in astq.walk(d["init"])):
+                    fetch = d
+    if fetch is None:
+        raise common.AnalysisBroken("decode_dispatch_data: fetch lambda not found")
+
+    def is_fetch(n):
+        n = astq.strip(n)
+        return n is not None and n.get("k") == "CXXOperatorCallExpr" and n.get("oop") == "()" and any(
+            x.get("k") == "DeclRefExpr" and x["ref"]["did"] == fetch["did"] for x in astq.walk(n))
+    cl = [n for n in astq.walk(body) if n.get("k") == "CXXForRangeStmt" and mentions(astq.strip(n["range"]), "classes")
+          and any(is_fetch(x) for x in astq.walk(n["body"]))]
+    if len(cl) != 1:
+        raise common.AnalysisBroken("decode_dispatch_data: per-class decoding loop not found")
+    return cl[0], is_fetch
+
+
+def record_once_rule(run, r2, f, loop=None, is_fetch=None):
+    where = lambda n: (f["file"], n["l"] if isinstance(n, dict) else f["line"])
+    if loop is None:
+        loop, is_fetch = decoder_class_loop(f)
+    cl = [loop]
+    cb = loop["body"]
+    # the encoder emits one v-table per distinct class (compiler.classes), the decoder walks the registration
+    # records (Policy::classes, which may name a class several times): a record whose class already has its
+    # v-table must be skipped before anything is read
+    lv = cl[0]["var"]["did"]
+    first_fetch_line = min([x["l"] for x in astq.walk(cb) if is_fetch(x)] or [10 ** 9])
+    skips = [n for n in (cb.get("c") or []) if n.get("k") == "IfStmt" and n["l"] <= first_fetch_line and any(x.get("k") == "ContinueStmt" for x in astq.walk(n["then"]))
+             and any(x.get("k") == "MemberExpr" and x.get("member") == "static_vptr" for x in astq.walk(n["cond"])) and any(x.get("k") == "DeclRefExpr" and x["ref"]["did"] == lv for x in astq.walk(n["cond"]))]
+    oks = False
+    if len(skips) == 1:
+        c0 = astq.strip(skips[0]["cond"])
+        nonnull = (c0.get("k") == "BinaryOperator" and c0.get("op") == "!=" and any(x.get("k") in ("CXXNullPtrLiteralExpr", "GNUNullExpr") or (x.get("k") == "IntegerLiteral" and x.get("v") == 0) for x in astq.walk(c0))) or \
+                  (c0.get("k") == "UnaryOperator" and c0.get("op") == "*")
+        oks = bool(nonnull) and any(x.get("k") == "UnaryOperator" and x.get("op") == "*" for x in astq.walk(c0))
+    run.instance(r2, "decode_dispatch_data: a registration record whose class already has its v-table is skipped before any value is read", where(cl[0]), ok=oks)
+    if not oks:
+        run.violation(r2, "decode_dispatch_data|record-once", "the per-record loop does not skip records of an already decoded class: the encoder emits one v-table per distinct class, a class registered twice desynchronises the decoder", where(cl[0]))
+
+
 def decoder_rules(run, r1, r2, f, aug):
     where = lambda n: (f["file"], n["l"] if isinstance(n, dict) else f["line"])
     body = f["body"]
@@ -419,22 +467,7 @@ def decoder_rules(run, r1, r2, f, aug):
     if len(cl) != 1:
         raise common.AnalysisBroken("decode_dispatch_data: per-class decoding loop not found")
     cb = cl[0]["body"]
-    # the encoder emits one v-table per distinct class (compiler.classes), the decoder walks the registration
-    # records (Policy::classes, which may name a class several times): a record whose class already has its
-    # v-table must be skipped before anything is read
-    lv = cl[0]["var"]["did"]
-    first_fetch_line = min([x["l"] for x in astq.walk(cb) if is_fetch(x)] or [10 ** 9])
-    skips = [n for n in (cb.get("c") or []) if n.get("k") == "IfStmt" and n["l"] <= first_fetch_line and any(x.get("k") == "ContinueStmt" for x in astq.walk(n["then"]))
-             and any(x.get("k") == "MemberExpr" and x.get("member") == "static_vptr" for x in astq.walk(n["cond"])) and any(x.get("k") == "DeclRefExpr" and x["ref"]["did"] == lv for x in astq.walk(n["cond"]))]
-    oks = False
-    if len(skips) == 1:
-        c0 = astq.strip(skips[0]["cond"])
-        nonnull = (c0.get("k") == "BinaryOperator" and c0.get("op") == "!=" and any(x.get("k") in ("CXXNullPtrLiteralExpr", "GNUNullExpr") or (x.get("k") == "IntegerLiteral" and x.get("v") == 0) for x in astq.walk(c0))) or \
-                  (c0.get("k") == "UnaryOperator" and c0.get("op") == "*")
-        oks = bool(nonnull) and any(x.get("k") == "UnaryOperator" and x.get("op") == "*" for x in astq.walk(c0))
-    run.instance(r2, "decode_dispatch_data: a registration record whose class already has its v-table is skipped before any value is read", where(cl[0]), ok=oks)
-    if not oks:
-        run.violation(r2, "decode_dispatch_data|record-once", "the per-record loop does not skip records of an already decoded class: the encoder emits one v-table per distinct class, a class registered twice desynchronises the decoder", where(cl[0]))
+    record_once_rule(run, r2, f, cl[0], is_fetch)
     loops = [n for n in cb.get("c") or [] if n.get("k") in ("DoStmt", "WhileStmt", "ForStmt")]
     if len(loops) != 1:
         raise common.AnalysisBroken("decode_dispatch_data: per-entry loop not found")
@@ -515,7 +548,77 @@ def decoder_rules(run, r1, r2, f, aug):
         run.instance(r2, "decode_dispatch_data: dispatch-table decoding ends on stop_bit", where(w), ok=okw)
         if not okw:
             run.violation(r2, "decode_dispatch_data|dtbl-stop", "dispatch-table decoding loop does not test stop_bit", where(w))
+    loop_flag_rule(run, r2, f)
     error_cell_order(run, r2, f, aug)
+
+
+LOOPS = ("WhileStmt", "ForStmt", "DoStmt", "CXXForRangeStmt")
+
+
+def _chain(root, target):
+    """nodes from root down to target (inclusive), or None"""
+    if root is target:
+        return [root]
+    for k in astq.kids_nodup(root):
+        c = _chain(k, target)
+        if c is not None:
+            return [root] + c
+    return None
+
+
+def loop_flag_rule(run, rule, f):
+    """A loop that runs `while (flag)` once per iteration of an enclosing loop, and leaves the flag false when it ends, must find the
+    flag (re)initialised on every entry: the flag is defined - declaration with initialiser, or assignment - by a statement of the
+    enclosing loop's body that precedes the inner loop on every path (a preceding statement of one of the enclosing blocks).
+    Otherwise only the first run of the inner loop does anything (the dispatch table of the second multi-method is left encoded)."""
+    body = f["body"]
+    n = 0
+    for w in astq.walk(body):
+        if w.get("k") not in ("WhileStmt", "ForStmt") or w.get("cond") is None:
+            continue
+        c = astq.strip(w["cond"])
+        if c is not None and c.get("k") == "UnaryOperator" and c.get("op") == "!":
+            c = astq.strip(c["c"][0])
+        if c is None or c.get("k") != "DeclRefExpr" or c["ref"].get("storage") != "local":
+            continue
+        did = c["ref"]["did"]
+        sets = [x for x in astq.walk(w["body"]) if x.get("k") == "BinaryOperator" and x.get("op") == "=" and (astq.strip(x["c"][0]) or {}).get("k") == "DeclRefExpr"
+                and astq.strip(x["c"][0])["ref"]["did"] == did]
+        if not sets:
+            continue
+        ch = _chain(body, w)
+        outer = [i for i, x in enumerate(ch[:-1]) if x.get("k") in LOOPS]
+        if not outer:
+            continue
+        n += 1
+        o = outer[-1]
+        # statements that precede the chain element inside each compound between the enclosing loop and the inner loop
+        ok = False
+        if w.get("k") == "ForStmt" and w.get("init") is not None:
+            ini = w["init"]
+            if ini.get("k") == "DeclStmt" and any(d.get("did") == did and d.get("init") is not None for d in ini["decls"]):
+                ok = True
+            e = astq.strip(ini) if ini.get("k") != "DeclStmt" else None
+            if e is not None and e.get("k") == "BinaryOperator" and e.get("op") == "=" and (astq.strip(e["c"][0]) or {}).get("k") == "DeclRefExpr" and astq.strip(e["c"][0])["ref"]["did"] == did:
+                ok = True
+        for i in range(o, len(ch) - 1):
+            x = ch[i]
+            if x.get("k") != "CompoundStmt":
+                continue
+            for st in x.get("c") or []:
+                if st is ch[i + 1]:
+                    break
+                if st.get("k") == "DeclStmt" and any(d.get("did") == did and d.get("init") is not None for d in st["decls"]):
+                    ok = True
+                e = astq.strip(st) if st.get("k") != "DeclStmt" else None
+                if e is not None and e.get("k") == "BinaryOperator" and e.get("op") == "=" and (astq.strip(e["c"][0]) or {}).get("k") == "DeclRefExpr" and astq.strip(e["c"][0])["ref"]["did"] == did:
+                    ok = True
+        run.instance(rule, "decode_dispatch_data: the flag of a per-item decoding loop is (re)initialised on every entry of the loop", (f["file"], w["l"]), ok=ok)
+        if not ok:
+            run.violation(rule, "decode_dispatch_data|loop-flag", "the loop `while (%s)` runs once per iteration of an enclosing loop and leaves its flag cleared, but the flag is not initialised again inside the enclosing loop: only the first item is decoded" % astq.text(w["cond"])[:40], (f["file"], w["l"]))
+    if n == 0:
+        raise common.AnalysisBroken("decode_dispatch_data: no flag-controlled decoding loop found (loop_flag_rule)")
+
 
 
 def error_cell_order(run, r2, f, aug):
@@ -752,11 +855,12 @@ def check(run):
         if not encs or not decs or not augs:
             raise common.AnalysisBroken("encoder / decoder / augment_methods instantiation not found")
         run.units.append({"unit": "c13_ast", "ndebug": nd, "encoders": len(encs), "decoders": len(decs)})
+        from . import c12
         for f in encs:
             encoder_rules(run, r1, r2, f)
-            from . import c12
             c12.encoder_layout_rule(run, r2, f)
             text_rules(run, r2, f)
+        c12.codec_rule(run, r1, ast, encoder=False)
         for f in decs:
             decoder_rules(run, r1, r2, f, augs[0])
             scratch_rules(run, r1, f)
